@@ -80,6 +80,8 @@ class Check:
         self._known = self._load_known()
         for d in (REPLAYS, EVIDENCE, WORK):
             d.mkdir(parents=True, exist_ok=True)
+        for old in REPLAYS.glob(f"{pid}-*.json"):      # replay files are rewritten by every run of this property's check
+            old.unlink()
 
     # ---- bookkeeping -------------------------------------------------
     def _load_known(self):
@@ -123,11 +125,28 @@ class Check:
             self.solver_s[backend] += secs
 
     # ---- violations ---------------------------------------------------
-    def violation(self, obligation: str, key: str, what: str, replay: dict, failing_input_found: bool = True):
+    def violation(self, obligation: str, key: str, what: str, replay: dict, failing_input_found: bool = True, tags: dict | None = None):
         """Record a violation.  `key` canonically identifies the failing input / call site / history;
-        it is matched against known_findings.json (exact key or 'key_prefix')."""
-        for e in self._known:
+        it is matched against known_findings.json: exact `key`, `key_prefix`, or a `match` dict whose every entry must
+        agree with `tags` (a tag that is a list matches by membership) — i.e. the specific construction that fails."""
+        tags = tags or {}
+
+        def matches(e):
             if e.get("key") == key or (e.get("key_prefix") and key.startswith(e["key_prefix"])):
+                return True
+            m = e.get("match")
+            if not m:
+                return False
+            for k_, v in m.items():
+                t = tags.get(k_ if k_ != "feature" else "features")
+                if isinstance(t, (list, tuple, set)):
+                    if v not in t:
+                        return False
+                elif t != v:
+                    return False
+            return True
+        for e in self._known:
+            if matches(e):
                 line = f"KNOWN-FINDING: property={self.pid} {e.get('what', what)} [{key}]"
                 if line not in self.known_hits:
                     self.known_hits.append(line)
